@@ -170,7 +170,7 @@ def _strategy(draw):
     spec["build"] = build or None
     spec["user_templates"] = templates
     edge = gc.dilute_box(spec)
-    opts = {"box": [edge, edge, edge], "bfudge": draw(st.sampled_from([0.2, 0.4, 0.7, 1.0, 1.0, 0.0]))}
+    opts = {"box": [edge, edge, edge], "bfudge": draw(st.sampled_from([0.2, 0.4, 0.7, 1.0, 1.0, 0.0, 1.5, 2.5]))}
     if draw(st.integers(0, 2)) == 0:
         opts["step_fudge"] = draw(st.sampled_from([0.7, 1.3]))       # the step length factor has no say in backmapping
     spec["opts"] = opts
